@@ -28,6 +28,8 @@
 mod c11_gen;
 #[path = "c11_mut.rs"]
 mod c11_mut;
+#[path = "c11_text.rs"]
+mod c11_text;
 
 use self::c11_gen as gen;
 use self::c11_mut as mutate;
@@ -1126,6 +1128,166 @@ fn feed_parser(ctx: &mut Ctx, kind: Kind, origin: &str, mutator: &'static str, d
     });
 }
 
+//------------ oracle 2 on messages that only the decoder can produce -------------
+
+/// Name of the struct field at which the `Debug` texts of two messages first
+/// differ (for a signature that names what got lost), e.g. `description`.
+fn first_differing_field(a: &str, b: &str) -> String {
+    let at = a.bytes().zip(b.bytes()).position(|(x, y)| x != y).unwrap_or(a.len().min(b.len()));
+    let head = &a.as_bytes()[..at.min(a.len())];
+    // the last `identifier:` before the difference
+    let mut end = None;
+    for i in (0..head.len()).rev() {
+        if head[i] == b':' && i > 0 && (head[i - 1].is_ascii_alphanumeric() || head[i - 1] == b'_') && head.get(i + 1).map(|c| *c == b' ').unwrap_or(true) {
+            end = Some(i);
+            break;
+        }
+    }
+    match end {
+        Some(e) => {
+            let mut s = e;
+            while s > 0 && (head[s - 1].is_ascii_alphanumeric() || head[s - 1] == b'_') {
+                s -= 1;
+            }
+            String::from_utf8_lossy(&head[s..e]).into_owned()
+        }
+        None => "unnamed".into(),
+    }
+}
+
+/// A document from the harness' own XML writer (`c11_text`): if the decoder
+/// accepts it, the message it returns came from the public API and carries
+/// protocol-valid field values, so it must be written as well-formed XML that
+/// parses back to an equal message (and writing that again gives the same
+/// bytes). A rejected document asserts nothing.
+fn check_text_doc(ctx: &mut Ctx, td: &c11_text::TextDoc, wf: &mut WfBatch) {
+    let variant = td.variant;
+    let kind = td.kind;
+    let describe = |doc2: Option<&[u8]>| {
+        json!({
+            "variant": variant,
+            "optional_parts_left_out": td.absent,
+            "optional_extras_present": td.extras,
+            "spelling": td.spelling,
+            "lenient": td.lenient,
+            "input_document": clip(&String::from_utf8_lossy(&td.doc), 6000),
+            "written_by_the_library": doc2.map(|d| clip(&String::from_utf8_lossy(d), 6000)),
+        })
+    };
+    let parsed = ctx.no_panic(&format!("parse-text-level:{}", kind.name()), || describe(None), || kind.parse(&td.doc));
+    ctx.eval();
+    let m = match parsed {
+        None => return,
+        Some(Err(e)) => {
+            ctx.obs(&format!("text_level_rejected:{variant}"), 1);
+            if std::env::var_os("VERIF_C11_TRACE").is_some() {
+                eprintln!("C11 trace: text-level {variant} rejected ({e}): {}", clip(&String::from_utf8_lossy(&td.doc), 700));
+            }
+            if ctx.wants_sample("text-level document rejected (asserts nothing)") {
+                ctx.sample("text-level document rejected (asserts nothing)", || {
+                    let mut d = describe(None);
+                    d["error"] = json!(e);
+                    d
+                });
+            }
+            return;
+        }
+        Some(Ok(m)) => m,
+    };
+    ctx.obs(&format!("text_level_accepted:{variant}"), 1);
+    if td.lenient.is_none() {
+        ctx.sig(&format!(
+            "text-level|{variant}|absent:{}|extras:{}",
+            if td.absent.is_empty() { "-".to_string() } else { td.absent.join("+") },
+            if td.extras.is_empty() { "-".to_string() } else { td.extras.join("+") }
+        ));
+    }
+    let doc2 = match ctx.no_panic(&format!("write-decoded:{variant}"), || describe(None), || m.write()) {
+        None => return,
+        Some(Err(e)) => {
+            match td.lenient {
+                Some(r) => ctx.obs(&format!("lenient:{r}:write-error"), 1),
+                None => ctx.violation(&format!("C11:text-roundtrip:{variant}:write-error"), &format!("write_xml of a decoded message into a Vec failed: {e}"), describe(None)),
+            }
+            return;
+        }
+        Some(Ok(d)) => d,
+    };
+    // oracle 1 for what the library wrote
+    let mut case = Case::new(variant, m.clone());
+    case.lenient = td.lenient;
+    case.shape = format!("decoded from a text-level document; left out: {}", td.absent.join("+"));
+    wf.push(ctx, &case, &doc2);
+    // oracle 2
+    let back = ctx.no_panic(&format!("decode-own-output:{variant}"), || describe(Some(&doc2)), || kind.parse(&doc2));
+    ctx.eval();
+    let failure: Option<(String, String)> = match back {
+        None => return,
+        Some(Err(e)) => Some(("decode-error".into(), e)),
+        Some(Ok(m2)) => {
+            if m2 != m {
+                let field = first_differing_field(&format!("{m:?}"), &format!("{m2:?}"));
+                Some((format!("not-equal:{field}"), format!("the message parsed from the library's output differs from the one it wrote (first difference at field `{field}`)")))
+            } else {
+                match m2.write() {
+                    Ok(doc3) if doc3 == doc2 => None,
+                    Ok(_) => Some(("rewrite-differs".into(), "an equal message is written differently the second time".into())),
+                    Err(e) => Some(("rewrite-error".into(), e)),
+                }
+            }
+        }
+    };
+    match (failure, td.lenient) {
+        (None, None) => ctx.obs("text_level_roundtrip_equal", 1),
+        (None, Some(r)) => ctx.obs(&format!("lenient:{r}:roundtrip-equal"), 1),
+        (Some((what, _)), Some(r)) => ctx.obs(&format!("lenient:{r}:{}", what.split(':').next().unwrap_or("failure")), 1),
+        (Some((what, err)), None) => {
+            let mut detail = describe(Some(&doc2));
+            detail["error"] = json!(err);
+            detail["decoded_message"] = json!(clip(&format!("{m:?}"), 3000));
+            ctx.violation(
+                &format!("C11:text-roundtrip:{variant}:{what}"),
+                &format!("{variant}: a message decoded from a protocol-valid document is not parsed back from the library's own output to an equal message ({what}: {err})"),
+                detail,
+            );
+        }
+    }
+    let key = match kind {
+        Kind::Prov => "text-level RFC 6492 document",
+        Kind::Publ => "text-level RFC 8181 document",
+        _ => "text-level RFC 8183 document",
+    };
+    if ctx.wants_sample(key) {
+        ctx.sample(key, || {
+            let mut d = describe(Some(&doc2));
+            d["input_document"] = json!(clip(&String::from_utf8_lossy(&td.doc), 700));
+            d["written_by_the_library"] = json!(clip(&String::from_utf8_lossy(&doc2), 700));
+            d["observed"] = json!("accepted; the library's rewrite parses back to an equal message");
+            d
+        });
+    }
+}
+
+fn text_level(ctx: &mut Ctx, crypto: Option<&Crypto>, wf: &mut WfBatch) {
+    let n = ctx.stage_budget((40_000, 600_000), 20_000, 160, 0);
+    let mut rng = ctx.rng("text-level");
+    let mut g = c11_text::TextGen::new(crypto);
+    for i in 0..n {
+        let td = match crate::core::catch(|| g.next(&mut rng)) {
+            Ok(td) => td,
+            Err(p) => {
+                // only library constructors of field values (URIs, resource blocks) run in there
+                let loc = crate::core::panic_location(&p);
+                ctx.violation(&format!("C11:panic:construct:{loc}"), &format!("panic while generating field values for a text-level document: {p}"), json!({"index": i}));
+                continue;
+            }
+        };
+        ctx.drain_chain_hook(|| json!({"while": "generating field values (text-level)", "variant": td.variant}));
+        check_text_doc(ctx, &td, wf);
+        ctx.drain_chain_hook(|| json!({"while": "parsing a text-level document", "variant": td.variant}));
+    }
+}
+
 pub fn run(ctx: &mut Ctx) {
     // literal cases: libFuzzer artifact / seed corpus of the fuzz stage
     if let Some(case) = ctx.case.clone() {
@@ -1302,6 +1464,8 @@ pub fn run(ctx: &mut Ctx) {
             ctx.sig(&format!("mutant|{}|{}", src_kind.name(), name));
         }
     }
+    // messages that only the decoders can produce (optional parts absent, extras present)
+    text_level(ctx, crypto.as_ref(), &mut wf);
     wf.flush(ctx);
 
     ctx.obs("constructor_refused:uri_candidates", g.refused_uri);
